@@ -83,6 +83,7 @@ public:
             // x86 compare exchange operation always has a strong fence
             // "sending" the fields initialized above to other processors.
             scoped_lock* pred = m.q_tail.exchange(this);
+            __TBB_VERIF_POINT(vp_qm_enqueued, &m, reinterpret_cast<std::intptr_t>(this));
             if (pred) {
                 call_itt_notify(prepare, &m);
                 __TBB_ASSERT(pred->m_next.load(std::memory_order_relaxed) == nullptr, "the predecessor has another successor!");
@@ -133,6 +134,7 @@ public:
                 // Someone in the queue
                 spin_wait_while_eq(m_next, nullptr);
             }
+            __TBB_VERIF_POINT(vp_qm_release, m_mutex, 0);
             m_next.load(std::memory_order_acquire)->m_going.store(1U, std::memory_order_release);
 
             reset();
